@@ -138,10 +138,14 @@ class Engine(_Base, ExprMixin, CallMixin, StmtMixin):
             for cls in ['asyncio:CancelledError'] + list(spec.get('raises', [])):
                 s2 = s.copy()
                 self.raise_exc(s2, self.resolve_class_name(self.cur_info, cls))
+                s2.exc[1].exact = False          # any subclass may be raised
+                s2.log.append(('await_raised', k, s2.exc[1]))
                 out.append((s2, None))
             rty = spec.get('result')
             # awaiting a call of a coroutine function under contract / inlined: its result; awaiting a future: declared type
             rv = (v if (isinstance(e.value, ast.Call) and v is not None) else VNone()) if rty is None else self.fresh_val(s, rty, 'awaited')
+            if spec.get('after') is not None:
+                spec['after'](self, s, rv)
             for cl in spec.get('result_assume', []):
                 s.assume(self.eval_clause(s, cl, dict(self.visible_env(s), result=rv), self.cur_info, old_st=self.entry_state))
             out.append((s, rv))
@@ -405,6 +409,9 @@ class Engine(_Base, ExprMixin, CallMixin, StmtMixin):
                 n_norm += 1
                 self.covers += 1
                 if c.result is not None:
+                    if isinstance(result, VOpt) and c.result[0] != 'opt':
+                        self.check(s, z3.Not(result.is_none()), '%s/result-is-not-None' % name)
+                        result = self.wf(s, result.some())
                     try:
                         result = coerce(result, c.result)
                     except Unsupported as e:
